@@ -53,3 +53,12 @@ Theorem C19_flood_never_returns :
     drain_live H ed_sign fuel s queue arrivals clk k coins = Panic site_mfuel.
 Proof. exact flood_never_returns. Qed.
 Print Assumptions C19_flood_never_returns.
+
+(* ---- tie to the source: the integer literals of the functions this property's model stands for
+   (private constants, bounds, unit factors; the files are SiteMap.files_C19) are today the ones the
+   model was written against. Gen/Sites.v num_literals is regenerated from /repo on every run; a
+   changed, added or removed number in a modelled function breaks this obligation ---- *)
+Require RV.Gen.Sites RV.Model.SiteMap.
+Theorem C19_literals_reviewed : RV.Model.SiteMap.literals_ok RV.Model.SiteMap.files_C19.
+Proof. repeat constructor. Qed.
+Print Assumptions C19_literals_reviewed.
